@@ -4,11 +4,11 @@ package main
 
 import (
 	"fmt"
-	"os"
 	"go/constant"
 	"go/token"
 	"go/types"
 	"math/big"
+	"os"
 	"sort"
 	"strings"
 
@@ -22,20 +22,20 @@ type TV struct {
 }
 
 type EvalCtx struct {
-	x        *FnCtx
-	fn       *ssa.Function
-	pkg      *types.Package
-	cur, old *State
-	params   map[string]TV // entry values
-	results  []TV
-	resNames []string
-	frame    *Frame // when set, identifiers resolve to current cell values first (loop invariants)
-	binds    map[string]TV
-	oldA     *Term // allocation counter at the reference point for fresh()
-	depth    int
-	err      error
+	x           *FnCtx
+	fn          *ssa.Function
+	pkg         *types.Package
+	cur, old    *State
+	params      map[string]TV // entry values
+	results     []TV
+	resNames    []string
+	frame       *Frame // when set, identifiers resolve to current cell values first (loop invariants)
+	binds       map[string]TV
+	oldA        *Term // allocation counter at the reference point for fresh()
+	depth       int
+	err         error
 	paramsFirst bool
-	facts    *[]*Term // well-formedness facts about values read during evaluation
+	facts       *[]*Term // well-formedness facts about values read during evaluation
 }
 
 func (c *EvalCtx) fail(format string, a ...interface{}) TV {
